@@ -35,6 +35,8 @@ class ArrayWorld:
     def new(self, content, shape, borrowed=False, origin=''):
         a = PObj('ndarray', fields={'content': content, 'shape': shape, 'borrowed': borrowed, 'written': False,
                                     'origin': origin, 'content0': content})
+        # whether an array is writeable / owns its memory is unknown to the code that receives it (a cache entry is an ordinary writeable array)
+        a.fields['flags'] = PObj('flags', fields={k: z3.Bool('array%d_%s' % (len(self.arrays), k)) for k in ('writeable', 'owndata')})
         a.methods.update({
             '__and__': lambda I, s, o: self.binop(AND, s, o), '__or__': lambda I, s, o: self.binop(OR, s, o),
             '__xor__': lambda I, s, o: self.binop(XOR, s, o), '__invert__': lambda I, s: self.unop(s),
